@@ -30,6 +30,8 @@ type Fail struct {
 	Kw  string
 	// Missing is set for "required": the missing member name
 	Missing string
+	// Schema is the schema object whose keyword failed
+	Schema map[string]any
 }
 
 type Evaluator struct {
@@ -38,6 +40,7 @@ type Evaluator struct {
 	// Fails collects failing leaves when non-nil (all branches, including losing anyOf/oneOf ones).
 	Fails *[]Fail
 	depth int
+	cur   map[string]any // schema object being evaluated (for Fail.Schema)
 }
 
 // ParseSchema decodes a schema text keeping number literals.
@@ -150,7 +153,7 @@ func Equal(a, b any) bool {
 
 func (e *Evaluator) fail(loc, kw string) {
 	if e.Fails != nil {
-		*e.Fails = append(*e.Fails, Fail{Loc: loc, Kw: kw})
+		*e.Fails = append(*e.Fails, Fail{Loc: loc, Kw: kw, Schema: e.cur})
 	}
 }
 
@@ -235,6 +238,9 @@ func (e *Evaluator) eval(schema any, inst any, loc string) bool {
 	}
 	ok = true
 	kind := Kind(inst)
+	saved := e.cur
+	e.cur = s
+	defer func() { e.cur = saved }()
 
 	if t, has := s["type"]; has {
 		match := false
@@ -388,7 +394,7 @@ func (e *Evaluator) eval(schema any, inst any, loc string) bool {
 				if name, isS := r.(string); isS {
 					if _, present := obj[name]; !present {
 						if e.Fails != nil {
-							*e.Fails = append(*e.Fails, Fail{Loc: loc, Kw: "required", Missing: name})
+							*e.Fails = append(*e.Fails, Fail{Loc: loc, Kw: "required", Missing: name, Schema: s})
 						}
 						ok = false
 					}
@@ -423,7 +429,7 @@ func (e *Evaluator) eval(schema any, inst any, loc string) bool {
 			case bool:
 				if !ap {
 					if e.Fails != nil {
-						*e.Fails = append(*e.Fails, Fail{Loc: join(loc, k), Kw: "additionalProperties"})
+						*e.Fails = append(*e.Fails, Fail{Loc: join(loc, k), Kw: "additionalProperties", Schema: s})
 					}
 					ok = false
 				}
@@ -458,10 +464,16 @@ func (e *Evaluator) eval(schema any, inst any, loc string) bool {
 	}
 
 	if all, has := s["allOf"].([]any); has {
+		allOK := true
 		for _, sub := range all {
 			if !e.eval(sub, inst, loc) {
-				ok = false
+				allOK = false
 			}
+		}
+		if !allOK {
+			e.cur = s
+			e.fail(loc, "allOf")
+			ok = false
 		}
 	}
 	if anyOf, has := s["anyOf"].([]any); has {
